@@ -172,7 +172,11 @@ func c04Phase(c *vk.Ctx, r *rand.Rand, natTimeout time.Duration, expiry bool) bo
 	for _, s := range sent {
 		g, ok := s.tgt.waitID(s.id, udpB)
 		if !ok {
-			c.Violation("C04/valid-datagram-not-forwarded", map[string]any{"client": clients[s.client].Addr.String(), "target": s.tgt.Name})
+			if d := c04KernelDrops(w.rig.Port, s.tgt.Addr.Port); d > 0 {
+				c.Inconclusive(fmt.Sprintf("stable phase: a datagram is missing and the kernel dropped %d datagrams at the listening or target socket (receive queue overflow on a loaded machine)", d))
+				return true
+			}
+			c.Violation("C04/valid-datagram-not-forwarded", map[string]any{"client": clients[s.client].Addr.String(), "target": s.tgt.Name, "kernel_drops": 0})
 			return false
 		}
 		// In the lab every address is local, so the kernel picks the source IP of the proxy's
@@ -430,7 +434,11 @@ func c04Phase(c *vk.Ctx, r *rand.Rand, natTimeout time.Duration, expiry bool) bo
 		cl.Send(ssUDP(k, randBytes(r, k.Codec().C.SaltSize), tgt.addr(), mkUDPPayload(id, 0, 0, 24)), w.rig.Addr4())
 		g, ok := tgt.waitID(id, udpB)
 		if !ok {
-			c.Violation("C04/valid-datagram-not-forwarded", map[string]any{"client": cl.Addr.String(), "phase": "young association"})
+			if d := c04KernelDrops(w.rig.Port, tgt.Addr.Port); d > 0 {
+				c.Inconclusive(fmt.Sprintf("young association: a datagram is missing and the kernel dropped %d datagrams at the listening or target socket", d))
+				return true
+			}
+			c.Violation("C04/valid-datagram-not-forwarded", map[string]any{"client": cl.Addr.String(), "phase": "young association", "kernel_drops": 0})
 			return false
 		}
 		_, src, _ := net.SplitHostPort(g.From)
@@ -484,7 +492,11 @@ func c04Phase(c *vk.Ctx, r *rand.Rand, natTimeout time.Duration, expiry bool) bo
 		cl.Send(ssUDP(k, randBytes(r, k.Codec().C.SaltSize), tgt.addr(), mkUDPPayload(id2, 0, 0, 24)), w.rig.Addr4())
 		g2, ok := tgt.waitID(id2, udpB)
 		if !ok {
-			c.Violation("C04/valid-datagram-not-forwarded", map[string]any{"client": cl.Addr.String(), "phase": "young association, second datagram"})
+			if d := c04KernelDrops(w.rig.Port, tgt.Addr.Port); d > 0 {
+				c.Inconclusive(fmt.Sprintf("young association, second datagram: missing and the kernel dropped %d datagrams at the listening or target socket", d))
+				return true
+			}
+			c.Violation("C04/valid-datagram-not-forwarded", map[string]any{"client": cl.Addr.String(), "phase": "young association, second datagram", "kernel_drops": 0})
 			return false
 		}
 		if _, src2, _ := net.SplitHostPort(g2.From); src2 != src || len(w.rig.Rec.ByClient(cl.Addr.String())) != 1 {
@@ -690,4 +702,14 @@ func init() {
 			c04Run(c)
 		},
 	})
+}
+
+// c04KernelDrops is the kernel's drop count at the listening socket and at a target's socket: a datagram the
+// kernel dropped on a full receive queue never reached the code under test, so its absence decides nothing.
+func c04KernelDrops(ports ...int) int64 {
+	var n int64
+	for _, p := range ports {
+		n += lab.UDPDrops(fmt.Sprintf("0.0.0.0:%d", p))
+	}
+	return n
 }
